@@ -165,6 +165,48 @@ def compared(cls):
     return out
 
 
+def hashed(cls):
+    """[(attr, kind)] from __hash__: the elements of the tuple given to hash(); kinds
+       HPlain self.a | HTuple tuple(self.a) | HSortedItems tuple(sorted(self.a.items())) [if self.a else None] |
+       HItems tuple(self.a.items()) [if self.a else None]   (order of insertion visible)"""
+    fn = find_method(cls, "__hash__")
+    tup = None
+    for n in ast.walk(fn):
+        if isinstance(n, ast.Call) and isinstance(n.func, ast.Name) and n.func.id == "hash" and len(n.args) == 1 \
+                and isinstance(n.args[0], ast.Tuple):
+            if tup is not None:
+                raise Reject("%s.__hash__: two hash(...) calls" % cls.name)
+            tup = n.args[0]
+    if tup is None:
+        raise Reject("%s.__hash__: hash((...)) not found" % cls.name)
+
+    def is_self(e):
+        return isinstance(e, ast.Attribute) and isinstance(e.value, ast.Name) and e.value.id == "self"
+
+    out = []
+    for e in tup.elts:
+        if isinstance(e, ast.IfExp) and is_self(e.test) and isinstance(e.orelse, ast.Constant) and e.orelse.value is None:
+            guard, e = e.test.attr, e.body
+        else:
+            guard = None
+        if is_self(e):
+            out.append((e.attr, "HPlain"))
+            continue
+        if isinstance(e, ast.Call) and isinstance(e.func, ast.Name) and e.func.id == "tuple" and len(e.args) == 1:
+            a = e.args[0]
+            if is_self(a):
+                out.append((a.attr, "HTuple"))
+                continue
+            srt = isinstance(a, ast.Call) and isinstance(a.func, ast.Name) and a.func.id == "sorted" and len(a.args) == 1 and not a.keywords
+            inner = a.args[0] if srt else a
+            if isinstance(inner, ast.Call) and isinstance(inner.func, ast.Attribute) and inner.func.attr == "items" and not inner.args \
+                    and is_self(inner.func.value) and (guard is None or guard == inner.func.value.attr):
+                out.append((inner.func.value.attr, "HSortedItems" if srt else "HItems"))
+                continue
+        raise Reject("%s.__hash__: unsupported element %s" % (cls.name, dump(e)))
+    return out
+
+
 def coq_str(s):
     return "[" + ";".join(str(ord(c)) for c in s) + "]%N" if s else "(@nil N)"
 
@@ -189,7 +231,11 @@ def generate(repo):
         out.append("(* %s: %s *)" % (cname, ", ".join("%s -> %s/%s" % (a, w.get(a, ("?",))[0], r.get(a, ("?",))[0]) for a in cmp_ if a not in excluded)))
         out.append("Definition tbl_%s : tbl := [\n%s\n]." % (cname, ";\n".join(rows)))
         names.append("tbl_" + cname)
+        out.append("Definition eq_%s : list str := [%s]." % (cname, "; ".join(coq_str(a) for a in cmp_)))
+        out.append("Definition hash_%s : list (str * hkind) := [%s]." % (cname, "; ".join("(%s, %s)" % (coq_str(a), k) for a, k in hashed(cls))))
     out.append("Definition identity_tables : list tbl := [%s]." % "; ".join(names))
+    out.append("Definition identity_hashes : list (list str * list (str * hkind)) := [%s]." % "; ".join(
+        "(eq_%s, hash_%s)" % (c, c) for c, _, _ in CLASSES))
     return "\n".join(out) + "\n"
 
 
